@@ -33,7 +33,7 @@ func (resp *DeviceAuthorizationResponse) UnmarshalJSON(data []byte) error {
 	}{
 		Alias: (*Alias)(resp),
 	}
-	if err := json.Unmarshal(data, &aux); err != nil {
+	if err := json.Unmarshal(data, aux); err != nil {
 		return err
 	}
 	if resp.VerificationURI == "" {
